@@ -1,5 +1,6 @@
 import UxVerif.Model.Proto
 import UxVerif.Model.Remap
+import UxVerif.Gen.Defaults
 
 namespace UxVerif.Driver.C12
 open UxVerif UxVerif.Proto UxVerif.Remap
@@ -86,6 +87,31 @@ def judgeW (sys : Sys) (pw : Float → Float) (eps : Float) (k : Nat) (tol tolW 
     let diff := maxAbs (List.zipWith (· - ·) col m)
     (j, (if supp then 0 else 2) + (if wok then 0 else 4), diff)
 
+/-- judge the TREE's answer for one destination point and the value the implementation made of
+    it: (j, 0 ok | 1 near-tie | +2 answer fails `knnAnswerB` | +4 value ≠ formula(answer), |Δ|) -/
+def judgeTree (sys : Sys) (isNN : Bool) (pw : Float → Float) (eps : Float) (k : Nat)
+    (tol tolD tolV : Float) (src : List (Float × Float)) (rows out : List (List Float))
+    (q : Float × Float) (j : Nat) (idx : List Nat) (ds : List Float) : Nat × Nat × Float :=
+  let D := distances F sys src q
+  if isTie sys tol D k then (j, 1, 0.0)
+  else
+    let tolD' := if sys == .spherical && D.any (fun d => d > 179.9) && tolD < 1e-5 then 1e-5 else tolD
+    let aok := knnAnswerB tolD' D k idx ds
+    let diffs : List Float := (List.zip rows out).map (fun (ro : List Float × List Float) =>
+      match ro.2[j]? with
+      | some v =>
+        if isNN then
+          (match nnFrom idx ro.1 with | some m => (if m == v then 0.0 else 1.0 + Float.abs (v - m)) | none => 1.0 / 0.0)
+        else Float.abs (v - idwFrom pw eps idx ds ro.1)
+      | none => 1.0 / 0.0)
+    let diff := maxAbs diffs
+    let vok := decide (diff ≤ (if isNN then 0.0 else tolV))
+    (j, (if aok then 0 else 2) + (if vok then 0 else 4), diff)
+
+def remapToC (s : String) : Int :=
+  if s == "nodes" then 0 else if s == "face centers" then 1 else if s == "edge centers" then 2 else -1
+def coordC (s : String) : Int := if s == "spherical" then 0 else if s == "cartesian" then 1 else -1
+
 def handle (cmd : String) (args : List Int) : Option String :=
   match cmd with
   /- C12.kind nNode nFace nEdge len dims… → repaired asIs   (kind codes, -1 = refused) -/
@@ -166,6 +192,46 @@ def handle (cmd : String) (args : List Int) : Option String :=
       let nn := remapRows (fun row => (nnRow (dist F sys) src dst row).map (·.getD (0.0 / 0.0))) rows
       let idw := remapRows (idwRow (dist F sys) pw eps k src dst) rows
       pure s!"{" ".intercalate (nn.map encFloats)} {" ".intercalate (idw.map encFloats)}"
+  /- C12.tree sys isNN power eps k tolTie tolD tolV src dst idx ds rows out
+       → failAnswer failValue ties maxdiff
+     idx/ds = what `BallTree.query(dest_coords, k)` returned (one row per destination point) -/
+  | "C12.tree" => do
+      let (sys, isNN, p, eps, k, tol, tolD, tolV, src, dst, idx, ds, rows, out) ← run (do
+        let s ← nat; let nn ← bool; let p ← float; let eps ← float; let k ← nat
+        let tol ← float; let tolD ← float; let tolV ← float
+        let src ← ptsP; let dst ← ptsP; let idx ← list nats; let ds ← rowsP
+        let rows ← rowsP; let out ← rowsP
+        pure (sysOf s, nn, p, eps, k, tol, tolD, tolV, src, dst, idx, ds, rows, out)) args
+      if idx.length != dst.length || ds.length != dst.length || rows.length != out.length
+          || out.any (fun r => r.length != dst.length) || rows.any (fun r => r.length != src.length)
+          || src.isEmpty || k == 0 then pure "shape"
+      else
+        let pw := fun d : Float => Float.pow d p
+        let res := (List.zip dst.zipIdx (List.zip idx ds)).map
+          (fun (x : ((Float × Float) × Nat) × (List Nat × List Float)) =>
+            judgeTree sys isNN pw eps k tol tolD tolV src rows out x.1.1 x.1.2 x.2.1 x.2.2)
+        let fa := (res.filter (fun r => r.2.1 == 2 || r.2.1 == 6)).map (·.1)
+        let fv := (res.filter (fun r => r.2.1 == 4 || r.2.1 == 6)).map (·.1)
+        let ties := (res.filter (·.2.1 == 1)).map (·.1)
+        pure s!"ok {encNats fa} {encNats fv} {encNats ties} {encFloat (maxAbs ((res.filter (·.2.1 != 1)).map (·.2.2)))}"
+  /- C12.wrap destGrid destKind nDst srcGrid srcDims srcShape obsGrid obsDims obsShape
+       → none | ok | fail <clauses>   followed by the model's grid dims shape -/
+  | "C12.wrap" => do
+      let (dg, dk, n, sg, sd, ss, og, od, os) ← run (do
+        let dg ← nat; let dk ← nat; let n ← nat; let sg ← nat; let sd ← nats; let ss ← nats
+        let og ← nat; let od ← nats; let os ← nats
+        pure (dg, kindOf dk, n, sg, sd.map dimOf, ss, og, od.map dimOf, os)) args
+      match wrapResult { dims := sd, shape := ss, grid := sg } dg dk n with
+      | none => pure "none"
+      | some r =>
+        let bad := (if r.dims == od then [] else ["remap_dims"]) ++ (if r.shape == os then [] else ["remap_shape"])
+          ++ (if r.grid == og then [] else ["remap_result_grid_is_destination"])
+        let v := if bad.isEmpty then "ok" else "fail " ++ ",".intercalate bad
+        pure s!"{v} {r.grid} {encNats (r.dims.map dimC)} {encNats r.shape}"
+  /- C12.defaults → idw: power k remap_to coord   nn: remap_to coord   (regenerated Gen/Defaults) -/
+  | "C12.defaults" => do
+      let _ ← run (pure ()) args
+      pure s!"{Gen.Defaults.idw_power} {Gen.Defaults.idw_k} {remapToC Gen.Defaults.idw_remap_to} {coordC Gen.Defaults.idw_coord_type} {remapToC Gen.Defaults.nn_remap_to} {coordC Gen.Defaults.nn_coord_type}"
   /- C12.dists sys src q → D… -/
   | "C12.dists" => do
       let (sys, src, q) ← run (do let s ← nat; let src ← ptsP; let q ← ptP; pure (sysOf s, src, q)) args
